@@ -5,7 +5,8 @@ set -u
 SD=$(readlink -f "$1"); ID=$(basename "$SD")
 WT=/tmp/cs/$ID
 export CARGO_TARGET_DIR=/tmp/cs_target CARGO_NET_OFFLINE=true
-mkdir -p /tmp/cs
+mkdir -p /tmp/cs /tmp/cs_tmp_$ID
+export TMPDIR=/tmp/cs_tmp_$ID
 git -C /repo worktree remove --force "$WT" >/dev/null 2>&1
 git -C /repo worktree add -q --detach "$WT" HEAD || exit 2
 res() { echo "{\"id\":\"$ID\",\"clean_demo_rc\":$1,\"patched_demo_rc\":$2,\"suite_failed\":$3,\"applies\":$4}" > "$SD/confirm.json"; cat "$SD/confirm.json"; }
@@ -20,4 +21,4 @@ git status --short | grep -v '^ M' | awk '{print $2}' | grep -v '^target' | xarg
 cargo test --workspace --no-fail-fast --offline -j 8 > "$SD/confirm_suite.log" 2>&1
 F=$(grep -c "^test .* FAILED\|^error" "$SD/confirm_suite.log")
 res $C $P $F true
-cd /; git -C /repo worktree remove --force "$WT"
+cd /; git -C /repo worktree remove --force "$WT"; rm -rf /tmp/cs_tmp_$ID
